@@ -14,6 +14,8 @@ import sympy as sp
 from .terms import mk, show, walk, map_term, ZERO, NEGCMP
 
 MAX_CONDS = 10
+FULL_MAX_NODES = 1500
+FULL_BUDGET_S = 20
 FLIP = {'lt': 'gt', 'le': 'ge', 'gt': 'lt', 'ge': 'le', 'eq': 'eq', 'ne': 'ne'}
 
 
@@ -351,6 +353,11 @@ class Prover:
             self._opaque = False
 
     def _prove_full(self, kind, goal, facts):
+        import time as _time
+        self._deadline = _time.time() + FULL_BUDGET_S
+        n_nodes = sum(1 for _ in walk(goal))
+        if n_nodes > FULL_MAX_NODES:
+            return ('UNPROVED', 'identity not established with opaque sub-terms and the term is too large (%d nodes) for case analysis' % n_nodes)
         conds = []
         conds_of(goal, conds)
         for f in facts:
@@ -370,7 +377,10 @@ class Prover:
 
     def _prove_cases(self, kind, goal, facts, conds):
         results = []
+        import time as _time
         for vals in itertools.product([True, False], repeat=len(conds)):
+            if _time.time() > getattr(self, '_deadline', 1e18):
+                return ('UNPROVED', 'case analysis exceeded its time budget (%ds)' % FULL_BUDGET_S)
             g = goal
             fs = list(facts)
             atoms = []
